@@ -6,11 +6,16 @@ int verif_thrown; bool verif_may_throw;
 struct SymEngineException {}; struct NotImplementedError {};
 enum NK { NK_INTEGER = 0, NK_RATIONAL = 1, NK_COMPLEX = 2, NK_NAN = 3, NK_ZOO = 4, NK_NONE = 5 };
 struct Integer; struct Rational; struct Complex;
-struct Number { int kind; Integer *in; Rational *ra; Complex *co; bool is_zero() const; bool is_negative() const; };
+struct Number { int kind; Integer *in; Rational *ra; Complex *co; bool is_zero() const; bool is_negative() const;
+  /* ghost record of a product built by mulnum (used by the powcomp contract): factors */
+  Number *mul_lhs, *mul_rhs;
+  Number *pow(const Integer &e) const;  Number *div(const Number &o) const; };
 typedef Number *RCPNumber;
 struct Integer {
   integer_class i; Number *num_;
   integer_class as_integer_class() const { return i; }
+  long as_int() const { return i; }
+  bool is_positive() const { return i > 0; }
   bool is_zero() const { return i == 0; }
   bool is_negative() const { return i < 0; }
   RCPNumber divint(const Integer &other) const;
@@ -34,6 +39,8 @@ struct Complex {
   static RCPNumber from_mpq(const rational_class re, const rational_class im);
   static RCPNumber from_two_rats(const Rational &re, const Rational &im);
   static RCPNumber from_two_nums(const Number &re, const Number &im);
+  bool is_re_zero() const { return real_.num == 0; }         /* ComplexBase::is_re_zero: real_part()->is_zero() */
+  RCPNumber powcomp(const Integer &other) const;
 };
 inline bool Number::is_zero() const { return kind == NK_INTEGER && in->i == 0; }
 inline bool Number::is_negative() const { return kind == NK_INTEGER ? in->i < 0 : (kind == NK_RATIONAL && ra->i.num < 0); }
@@ -84,6 +91,24 @@ static RCPNumber mk_Complex(const rational_class &re, const rational_class &im)
   __CPROVER_assert(r->co->is_canonical(r->co->real_, r->co->imaginary_), "C05.Complex.ctor.is_canonical");
   return r;
 }
+/* ---- stubs for Complex::powcomp: assumed contracts of what it calls ---- */
+Number I_obj, m1_obj, negI_obj, powres_obj, prod_obj, opaque_obj;
+RCPNumber I, minus_one;
+inline Number *Number::pow(const Integer &e) const { return &powres_obj; }       /* im->pow(other): some number P (Rational::powrat is under contract separately) */
+inline Number *Number::div(const Number &o) const { return &opaque_obj; }
+inline RCPNumber mulnum(RCPNumber a, RCPNumber b)
+{
+  if (a == I && b == minus_one) return &negI_obj;                                 /* I * (-1) */
+  prod_obj.kind = NK_NONE; prod_obj.mul_lhs = a; prod_obj.mul_rhs = b; return &prod_obj;
+}
+/* ntheory.cpp mod_f = mp_fdiv_r: floored remainder, 0 <= r < d for d > 0 */
+inline Integer *mod_f(const Integer &n, const Number &d)
+{
+  long dv = d.in->i; __CPROVER_assert(dv > 0, "stub mod_f: positive modulus");
+  long r = n.i % dv; if (r < 0) r = r + dv;
+  return mk_Integer(r);
+}
+inline RCPNumber pow_number(const Complex &x, unsigned long n) { return &opaque_obj; }
 #include "glue.inc"
 
 extern "C" void mp_pow_ui(long &r, long b, unsigned long e)
@@ -280,6 +305,21 @@ extern "C" void h_complex_from(void)
    to the glue above.  Contract: for ANY two exact numbers read from the archive the loader either returns a normalised
    number (zoo / nan for a zero denominator) or throws a library exception — in particular no GMP precondition
    (non-zero denominator) is violated, which would be a SIGFPE in the real library. */
+extern "C" void h_powcomp(void)
+{
+  init();
+  I_obj.kind = NK_COMPLEX; m1_obj.kind = NK_INTEGER; I = &I_obj; minus_one = &m1_obj;
+  Complex Z; Z.real_.num = 0; Z.real_.den = 1; Z.real_.canon = true;                     /* purely imaginary base i*q, q != 0 canonical */
+  Z.imaginary_.num = nondet_long(); Z.imaginary_.den = nondet_long(); Z.imaginary_.canon = true;
+  RANGE(Z.imaginary_.num, -12, 12); RANGE(Z.imaginary_.den, 1, 12); __CPROVER_assume(Z.imaginary_.den >= 1 && Z.imaginary_.num != 0);
+  Integer E; E.i = nondet_long(); __CPROVER_assume(E.i > -(1L << 40) && E.i < (1L << 40));
+  verif_may_throw = false;
+  RCPNumber r = Z.powcomp(E);
+  long m = E.i % 4; if (m < 0) m = m + 4;                                                  /* the mathematical n mod 4 */
+  RCPNumber unit = m == 0 ? one : (m == 1 ? I : (m == 2 ? minus_one : &negI_obj));
+  OBL("C05.Complex.powcomp.post.imaginary_base_result_is_q_pow_n_times_i_pow_n_mod_4", r == &prod_obj && prod_obj.mul_lhs == &powres_obj && prod_obj.mul_rhs == unit);
+  REACHABLE("h_powcomp");
+}
 #ifdef C20_LOADERS
 struct ArchiveN {
   Number *a_, *b_;
